@@ -141,7 +141,7 @@ class StmtMixin:
         if env.dead:
             return
         exits.append((list(env.pc), v, self.heap_with_byref(env), list(env.facts)))
-        if getattr(self, "log_exit_vars", False):
+        if getattr(self, "log_exit_vars", False) and not self.quiet:
             self.exit_vars.append((len(self.where), dict(env.vars)))      # (call depth, local variables) at this return
         env.dead = True
 
